@@ -52,6 +52,7 @@ fn balance_word(vm: &Vm, asset: &[u8]) -> Option<(usize, [u8; 8])> {
 struct Pending {
     #[allow(dead_code)]
     external: bool,
+    own_hash: [u8; 32],
     regs0: Vec<u64>,
     stack_hash: [u8; 32],
     depth: usize,
@@ -82,7 +83,7 @@ fn one_case(ctx: &mut Ctx, case: &g::Case, tag: &str) {
     let costs = case.params.gas_costs().clone();
     let mut pend: Vec<Pending> = vec![];
     // what the previous event was about to execute
-    enum Prev { None, Call { regs0: Vec<u64>, a: u64, b: u64, c: u64, d: u64, call_bytes: Vec<u8>, asset: Vec<u8>, stack_len: usize, stack_hash: [u8; 32], depth: usize, bal_before: Option<(usize, [u8; 8])> },
+    enum Prev { None, Call { regs0: Vec<u64>, a: u64, b: u64, c: u64, d: u64, call_bytes: Vec<u8>, asset: Vec<u8>, stack_len: usize, stack_hash: [u8; 32], own_hash: [u8; 32], depth: usize, bal_before: Option<(usize, [u8; 8])> },
                 Ret { regs2: Vec<u64>, line: String, heap_hash: [u8; 32], charge: u64, want_ret: (u64, u64) } }
     let mut prev = Prev::None;
     let mut state = match ctx.guard(|| vm.transact(case.ready()).map(ProgramState::from).map_err(|e| g::err_name(&e))) {
@@ -98,9 +99,11 @@ fn one_case(ctx: &mut Ctx, case: &g::Case, tag: &str) {
         // ---- what did the previous instruction do?
         match std::mem::replace(&mut prev, Prev::None) {
             Prev::None => {}
-            Prev::Call { regs0, a, b, c, d, call_bytes, asset, stack_len, stack_hash: sh0, depth: d0, bal_before } => {
-                // a CALL that succeeded lands in the callee with a new frame pointer equal to the old $sp
-                if regs[FP] == regs0[SP] && regs[PC] == regs[IS] && regs[FP] != regs0[FP] {
+            Prev::Call { regs0, a, b, c, d, call_bytes, asset, stack_len, stack_hash: sh0, own_hash: own0, depth: d0, bal_before } => {
+                // a CALL that succeeded lands at the start of the callee's code with a NEW frame whose saved $fp is the caller's
+                // (where the frame lies is what is being checked, so it must not be part of the detection)
+                let saved_fp = vm.memory().read_bytes::<_, 8>(regs[FP] as usize + CallFrame::registers_offset() + 8 * FP).map(u64::from_be_bytes).ok();
+                if regs[PC] == regs[IS] && regs[FP] != regs0[FP] && regs[FP] != 0 && saved_fp == Some(regs0[FP]) && depth(&vm) == d0 + 1 {
                     let to = ContractId::try_from(&call_bytes[..32]).unwrap();
                     let code: Vec<u8> = vm.as_ref().storage::<ContractsRawCode>().get(&to).ok().flatten().map(|c| c.as_ref().as_ref().to_vec()).unwrap_or_default();
                     let padded = (code.len() + 7) / 8 * 8;
@@ -109,6 +112,10 @@ fn one_case(ctx: &mut Ctx, case: &g::Case, tag: &str) {
                     let input = format!("{tag} call@pc={} to={}", regs0[PC], hex(&to.as_ref()[..4]));
                     // oracle: callee entry state
                     let mut bad = vec![];
+                    if regs[FP] != old_sp { bad.push("fp!=caller-sp"); }
+                    if regs[FP] < regs0[SP] || regs[SSP] < regs0[SP] { bad.push("callee-stack-below-caller-sp"); }
+                    if regs[SSP] != regs[FP] + fsz + padded as u64 { bad.push("ssp!=fp+frame+code"); }
+                    if regs0[SP] > regs0[SSP] { ctx.count("call.live-caller-frame"); }
                     if regs[SSP] != old_sp + fsz + padded as u64 { bad.push("ssp"); }
                     if regs[SP] != regs[SSP] { bad.push("sp"); }
                     if regs[PC] != old_sp + fsz || regs[IS] != regs[PC] { bad.push("pc/is"); }
@@ -119,7 +126,7 @@ fn one_case(ctx: &mut Ctx, case: &g::Case, tag: &str) {
                     for i in 16..64 { if regs[i] != regs0[i] { bad.push("program-register"); break; } }
                     if !bad.is_empty() { ctx.oracle_fail("callee-entry-state", &input, &bad.join(",")); }
                     // the callee's code is what storage holds, zero padded
-                    let written = vm.memory().read(old_sp, fsz as usize + padded).map(|s| s.to_vec()).unwrap_or_default();
+                    let written = vm.memory().read(regs[FP], fsz as usize + padded).map(|s| s.to_vec()).unwrap_or_default();
                     if written.len() == fsz as usize + padded {
                         if written[fsz as usize..fsz as usize + code.len()] != code[..] || written[fsz as usize + code.len()..].iter().any(|x| *x != 0) {
                             ctx.oracle_fail("callee-code-copy", &input, "code after the frame differs from storage / padding not zero");
@@ -128,6 +135,7 @@ fn one_case(ctx: &mut Ctx, case: &g::Case, tag: &str) {
                     } else { ctx.oracle_fail("frame-unreadable", &input, "cannot read frame+code"); }
                     // caller's stack untouched by the call itself
                     let external = regs0[FP] == 0;
+                    if stack_hash(&vm, regs0[SSP] as usize, old_sp as usize) != own0 { ctx.oracle_fail("call-overwrote-caller-frame-locals", &input, &format!("caller's own stack [$ssp={}, $sp={}) changed during CALL; callee $fp={}", regs0[SSP], regs0[SP], regs[FP])); }
                     if stack_hash(&vm, lo, old_sp as usize) != sh0 { ctx.oracle_fail("call-wrote-caller-stack", &input, "bytes below old $sp changed during CALL"); }
                     // the only other write: the debited balance word of an external caller
                     let mut deb = "-".to_string();
@@ -152,7 +160,7 @@ fn one_case(ctx: &mut Ctx, case: &g::Case, tag: &str) {
                     if b > 0 { ctx.count("call.coins"); }
                     if ch2 > 0 { ctx.count("call.new-balance-entry"); }
                     if regs[CGAS] < regs0[CGAS].saturating_sub(total) { ctx.count("call.partial-gas"); }
-                    pend.push(Pending { external, regs0, stack_hash: sh0, depth: d0, line: input });
+                    pend.push(Pending { external, own_hash: own0, regs0, stack_hash: sh0, depth: d0, line: input });
                     max_depth = max_depth.max(pend.len());
                 }
             }
@@ -169,6 +177,7 @@ fn one_case(ctx: &mut Ctx, case: &g::Case, tag: &str) {
                     if regs[HP] != regs2[HP] { ctx.oracle_fail("hp-not-kept", &input, "$hp after return differs from the callee's"); }
                     if regs[GGAS] + charge != regs2[GGAS] { ctx.oracle_fail("ggas-not-kept", &input, "$ggas changed by more than the instruction's own cost"); }
                     let sp0 = p.regs0[SP] as usize;
+                    if stack_hash(&vm, p.regs0[SSP] as usize, sp0) != p.own_hash { ctx.oracle_fail("caller-frame-locals-changed", &input, "caller's own stack [$ssp,$sp) differs after the return"); }
                     if stack_hash(&vm, lo, sp0) != p.stack_hash { ctx.oracle_fail("caller-stack-changed", &input, "bytes [script $ssp, caller $sp) differ after the return"); }
                     if depth(&vm) != p.depth { ctx.oracle_fail("depth-not-restored", &input, &format!("{} vs {}", depth(&vm), p.depth)); }
                     let hp = regs[HP] as usize;
@@ -194,7 +203,7 @@ fn one_case(ctx: &mut Ctx, case: &g::Case, tag: &str) {
                             let sp = regs[SP] as usize;
                             let sh = stack_hash(&vm, lo, sp);
                             let bal_before = balance_word(&vm, &asset);
-                            prev = Prev::Call { regs0: regs.clone(), a, b, c, d, call_bytes: cb, asset, stack_len: vm.memory().stack_raw().len(), stack_hash: sh, depth: depth(&vm), bal_before };
+                            prev = Prev::Call { regs0: regs.clone(), a, b, c, d, call_bytes: cb, asset, stack_len: vm.memory().stack_raw().len(), stack_hash: sh, own_hash: stack_hash(&vm, regs[SSP] as usize, sp), depth: depth(&vm), bal_before };
                         }
                     }
                     Instruction::RET(op) if regs[FP] != 0 => {
